@@ -247,9 +247,9 @@ def run(ctx):
     jt = 420 if quick else 2400
     # ---- datasets -----------------------------------------------------------------------------
     specs = []
-    for kind in (["single", "hive"] if quick else ["single", "hive", "multi", "single"]):
+    for kind in (["single", "hive"] if quick else ["single", "hive", "multi"]):
         specs.append(gen_dataset(rng, kind, small=True))
-    names = [FOREIGN[(ctx.seed + j) % len(FOREIGN)] for j in range(1)] if quick else FOREIGN
+    names = [FOREIGN[(ctx.seed + j) % len(FOREIGN)] for j in range(1 if quick else 5)]
     if not os.path.isdir(os.path.join(C.REPO, "test-data")):
         ctx.notes.append("no test-data directory under VERIF_REPO: foreign files skipped")
         names = []
@@ -269,12 +269,12 @@ def run(ctx):
     base["broken"] = False
     jobs = [dict(base, phase="corpus"), dict(base, phase="tree_model"), dict(base, phase="part_writers"),
             dict(base, phase="multi_switch", datasets=datasets)]
-    fb = 42 if quick else 600
+    fb = 42 if quick else 400
     for di, d in enumerate(datasets):
         jobs.append(dict(base, phase="forced", datasets=[d], budget=max(6, fb // len(datasets)), tag=di))
         jobs.append(dict(base, phase="storm", datasets=[d], share=len(datasets), tag=di))
-    rounds = 32 if quick else 240
-    chunk = 8 if quick else 24
+    rounds = 32 if quick else 160
+    chunk = 8 if quick else 20
     for r0 in range(0, rounds, chunk):
         jobs.append(dict(base, phase="stress", datasets=datasets, r0=r0, r1=min(rounds, r0 + chunk), tag=r0))
     # longest jobs first
@@ -533,7 +533,7 @@ def footprint_jobs(ctx, datasets, rng, quick):
     mk = lambda path, ph, ops: {"phase": "footprint", "path": path, "fp_phase": ph, "ops": ops, "quick": quick, "seed": ctx.seed}
     for di, (spec, path) in enumerate(datasets):
         ops = fixed_ops(spec)
-        ops += [gen_op(rng, spec) for _ in range(2 if quick else 10)]
+        ops += [gen_op(rng, spec) for _ in range(2 if quick else 6)]
         for i in range(0, len(ops), 3):
             jobs.append(mk(path, "fresh", ops[i:i + 3]))
             owner.append(di)
@@ -547,7 +547,7 @@ def footprint_jobs(ctx, datasets, rng, quick):
         # the same premise at bytecode granularity (every instruction of fastparquet frames) for the short operations,
         # in the thorough tier for all
         short = [o for o in ops if o["op"] in ("slice_only", "count", "statistics", "columns", "head")]
-        osel = (short[:3] + short[-2:]) if quick else ops
+        osel = (short[:3] + short[-2:]) if (quick or spec["kind"] == "file") else (short + [o for o in ops if o["op"] in ("slice", "pickle", "index")][:4] + ops[1:3])
         for i in range(0, len(osel), 3):
             jobs.append(mk(path, "fresh-opcode", osel[i:i + 3]))
             owner.append(di)
@@ -639,7 +639,7 @@ def conc_generic_key(k):
 
 
 def tree_model(ctx, pq, rng, quick):
-    n = 40 if quick else 300
+    n = 40 if quick else 150
     agree = 0
     total = 0
     first_bad = None
@@ -779,7 +779,7 @@ def forced_search(ctx, datasets, rng, quick, budget=None):
 def multi_switch(ctx, datasets, rng, quick):
     """2-3 threads, random plans with many switches at line granularity (both directions)"""
     from fastparquet import ParquetFile
-    n = 10 if quick else 120
+    n = 10 if quick else 60
     for r in range(n):
         spec, path, solo = datasets[r % len(datasets)]
         nt = rng.choice([2, 2, 3])
@@ -842,8 +842,8 @@ def storm_search(ctx, datasets, rng, quick, share=None):
     """op b preempted at (nearly) every line, a complete op a in each gap.  a = the operations that write
     shared state on this tree (known from their footprint) first, then derived-handle operations."""
     from fastparquet import ParquetFile
-    npairs = 16 if quick else 96
-    max_calls = 500 if quick else 2500
+    npairs = 16 if quick else 48
+    max_calls = 500 if quick else 1500
     broken = bool(ctx.broken)
     if broken:
         npairs, max_calls = (24, 2500) if quick else (96, 8000)
@@ -875,7 +875,7 @@ def storm_search(ctx, datasets, rng, quick, share=None):
 
 def stress(ctx, datasets, rng, quick, r0=0, r1=None):
     from fastparquet import ParquetFile
-    rounds = 32 if quick else 240
+    rounds = 32 if quick else 160
     for r in range(r0, rounds if r1 is None else r1):
         spec, path, solo = datasets[r % len(datasets)]
         nt = [2, 3, 4, 8, 16, 2, 6, 12][r % 8] if r >= 2 else [2, 16][r]
@@ -915,6 +915,13 @@ def stress(ctx, datasets, rng, quick, r0=0, r1=None):
             for op in l:
                 ctx.count("stress.op", op["op"])
         reported = False
+        if hung:
+            # slowness of 16 threads switching every microsecond on a loaded machine is not a hang: the same round with
+            # the default switch interval and a long deadline decides
+            e2, l2, hung = conc.stress_run(ParquetFile(path), lists, rng, switch=0.005, deadline_s=240.0)
+            if not hung:
+                ctx.count("inconclusive", "round exceeded its deadline, finishes with the default switch interval")
+                continue
         if hung:
             ctx.fail({"component": "shared-handle", "op": "round", "symptom": "hang", "mode": "stress"}, dict(case, hung=True),
                      "a free-running round of %d threads did not finish within %ds" % (nt, int(conc.STRESS_DEADLINE)))
@@ -968,7 +975,7 @@ def part_writers(ctx, pq, rng, quick):
     sequential ones; footprint on the shared object: no write at all (premise of C20_part_writer)"""
     import numpy as np
     from fastparquet import writer
-    rounds = 8 if quick else 50
+    rounds = 8 if quick else 30
     for r in range(rounds):
         spec = gen_dataset(rng, "single", small=True)
         spec["nthreads"] = [2, 4, 8, 16, 3][r % 5]
@@ -1038,7 +1045,12 @@ def part_round(spec, scratch, tag, rng, trace=False, reps=1):
         for pi, plan in enumerate(plans):
             a, b = rng.sample(range(nt), 2)
             shf = dict(shared, paths=paths("forced%d" % pi))
-            res, steps, dead = conc.forced_run(None, [{"op": "part", "i": a}, {"op": "part", "i": b}], [list(p) for p in plan], shared=shf, root=fmd)
+            res, steps, dead = conc.forced_run(None, [{"op": "part", "i": a}, {"op": "part", "i": b}], [list(p) for p in plan], shared=shf, root=fmd,
+                                               timeout=90.0)
+            if dead:
+                e_, l_, h_ = conc.stress_run(None, [[{"op": "part", "i": a}], [{"op": "part", "i": b}]], rng, shared=shf, switch=0.005, deadline_s=240.0)
+                if not h_:
+                    continue            # scheduler time-out on a loaded machine, the writers finish when free-running
             for t_, i in enumerate((a, b)):
                 g = conc.canon(res[t_])
                 if g != ref[i] or dead:
@@ -1048,6 +1060,8 @@ def part_round(spec, scratch, tag, rng, trace=False, reps=1):
     for t_ in range(trials):
         sh = shared if t_ == 0 else dict(shared, paths=paths("thr%d" % t_))
         early, late, hung = conc.stress_run(None, [[{"op": "part", "i": i}] for i in range(nt)], rng, shared=sh)
+        if hung:
+            early, late, hung = conc.stress_run(None, [[{"op": "part", "i": i}] for i in range(nt)], rng, shared=sh, switch=0.005, deadline_s=240.0)
         nb = len(bad)
         for i in range(nt):
             if late[i][0] != ref[i] or hung:
